@@ -2,6 +2,8 @@
      W <p>                                              model of WrapPosition
      C P=<id:val,...> [H=<size hint at hasher setup>]   model of the configuration: cfg=q,lgwin,lgblock,np,nd,alphabet,maxdist,rbsize,rbmask,rbtail,rbtotal hasher=<type> hq=<0|1>
      B <lgwin> <lgblock> <q> <n1,n2,..> <data hex>      model of the ring buffer after these writes: pos mask cur chk (+ own check against the data)
+     SC <lgwin> <lw 0|1> <n1,n2,..> <data hex>          model of the stored-stream writer (EncodeWindowBits, uncompressed meta-block
+                                                        headers, JumpToByteBoundary, raw bytes, empty last meta-block): hex of the stream
      D <allow_large 0|1> <stream hex|->                 decode with the extracted RFC 7932 decoder
      DP <allow_large> <prefix hex|-> <stream hex|->     same with a custom-dictionary prefix
    answers:  OK <len> <hash> I=<k:v,...> [H=<hex of output if len <= 64>]   |   ERR <code>
@@ -93,6 +95,22 @@ let () = iter_lines (fun line ->
   match split_ws line with
   | ["D"; lw; s] -> print_endline (run lw "-" s)
   | ["DP"; lw; p; s] -> print_endline (run lw p s)
+  | ["SC"; lgwin; lw; lens; data] ->
+    let (lb, lbb) = encode_window_bits (z_of_int (int_of_string lgwin)) (lw <> "0") in
+    let hb = n_to_bits (nat_of_int (int_of_n lbb)) lb in
+    let bytes = Array.of_list (bytes_of_string (unhex data)) in
+    let cur = ref 0 in
+    let chunks = Stdlib.List.map (fun n -> let w = Array.to_list (Array.sub bytes !cur n) in cur := !cur + n; w)
+        (Stdlib.List.map int_of_string (Stdlib.List.filter (fun x -> x <> "") (Stdlib.String.split_on_char ',' lens))) in
+    (match store_chunks chunks hb with
+     | None -> print_endline "PANIC"
+     | Some bs ->
+       let b = Buffer.create 1024 in
+       let rec go l acc k = match l with
+         | [] -> if k > 0 then Buffer.add_string b (Printf.sprintf "%02x" acc)
+         | x :: t -> let acc = if x then acc lor (1 lsl k) else acc in
+                     if k = 7 then (Buffer.add_string b (Printf.sprintf "%02x" acc); go t 0 0) else go t acc (k + 1) in
+       go bs 0 0; print_endline (Buffer.contents b))
   | ["W"; p] -> print_endline (string_of_n (wrap_position (n_of_string p)))
   | "C" :: rest ->
     let ps = ref [] and hint = ref None in
